@@ -37,11 +37,17 @@ def check(prog, rep):
     wrapper_rules(prog, rep, arg_skip=("Bucket.get",))
     # replace_last rewrites by id: ids are unique within the bucket (an id handed out twice makes the rewrite hit an
     # earlier event as well), and each Datastore / storage object has its own state
-    from ..rules_store import idalloc_memory, instance_state, ddl_facts
+    from ..rules_store import idalloc_memory, idalloc_sql, instance_state, ddl_facts
 
     idalloc_memory(prog, rep)
+    idalloc_sql(prog, rep)
     ddl_facts(prog, rep)
     instance_state(prog, rep)
+    # the loop reads back what it stored and merges into it: the stored newest event is the store's own (a caller that keeps
+    # updating one data dict between heartbeats must not alter the event already stored), and what is read is a copy
+    from ..rules_own import own_rules
+
+    own_rules(prog, rep, methods=["insert_one", "replace_last", "replace", "get_events", "get_event"])
     # the other side of the comparison: heartbeat_reduce is the left fold of the same merge function the loop calls
     from .c08 import fold_rule
 
@@ -59,6 +65,7 @@ PW = "aw_datastore/storages/peewee.py"
 ME = "aw_datastore/storages/memory.py"
 DS = "aw_datastore/datastore.py"
 VARIANTS = [
+    ("B memory stores a shallow copy of the heartbeat", ME, "            event = copy.deepcopy(event)\n            if self.db[bucket]:", "            event = copy.copy(event)\n            if self.db[bucket]:", "OWN-IN"),
     ("B memory ids handed out as len(bucket) (reused after a delete)", "aw_datastore/storages/memory.py", "            if self.db[bucket]:\n                event.id = max(int(e.id or 0) for e in self.db[bucket]) + 1\n            else:\n                event.id = 0\n", "            event.id = len(self.db[bucket])\n", "IDALLOC"),
     ("B reduce skips heartbeats lying within the last event without asking the merge rule", "aw_transform/heartbeats.py", "        merged = heartbeat_merge(reduced[-1], heartbeat, pulsetime)\n", "        if reduced[-1].timestamp <= heartbeat.timestamp and heartbeat.timestamp + heartbeat.duration <= reduced[-1].timestamp + reduced[-1].duration:\n            continue\n        merged = heartbeat_merge(reduced[-1], heartbeat, pulsetime)\n", "FOLD"),
     ("B sqlite newest keyed on endtime (original defect)", SQ, "ORDER BY starttime DESC, id DESC LIMIT ?", "ORDER BY endtime DESC LIMIT ?", ["LAST", "LAST-KEY", "ORDER"]),
